@@ -4,6 +4,7 @@ import (
 	"errors"
 	"fmt"
 	"net"
+	"strings"
 )
 
 var ErrInvalidAddr = errors.New("invalid IP subnet/host")
@@ -11,6 +12,10 @@ var ErrInvalidAddr = errors.New("invalid IP subnet/host")
 func ParseIPNet(subnet string) (*net.IPNet, error) {
 	_, result, err := net.ParseCIDR(subnet)
 	if err == nil {
+		// only IPv4 subnets are supported
+		if len(result.IP) != net.IPv4len || len(result.Mask) != net.IPv4len {
+			return nil, ErrInvalidAddr
+		}
 		return result, err
 	}
 	// try to parse host IP address instead
@@ -18,7 +23,12 @@ func ParseIPNet(subnet string) (*net.IPNet, error) {
 	if ipAddr == nil {
 		return nil, ErrInvalidAddr
 	}
-	return &net.IPNet{IP: ipAddr.To4(), Mask: net.CIDRMask(32, 32)}, nil
+	// only IPv4 hosts are supported, refuse every IPv6 form
+	ip4 := ipAddr.To4()
+	if ip4 == nil || strings.Contains(subnet, ":") {
+		return nil, ErrInvalidAddr
+	}
+	return &net.IPNet{IP: ip4, Mask: net.CIDRMask(32, 32)}, nil
 }
 
 func GetInterfaceIP(iface *net.Interface) (ifaceIP net.IP, err error) {
